@@ -1,7 +1,7 @@
 (* Props/C02.v — property theorems only. *)
 From Coq Require Import List NArith ZArith.
 From N0 Require Import Base.PyStr Base.PyVal Xpath.Dec Xpath.DecProofs Xpath.Token Xpath.TokenProofs
-  Xpath.Find Xpath.FindProofs Xpath.Write Xpath.SpecProofs Xpath.WalkProofs Xpath.SpellProofs.
+  Xpath.Find Xpath.FindProofs Xpath.Write Xpath.SpecProofs Xpath.WalkProofs Xpath.SpellProofs Xpath.LongPathProofs.
 Import ListNotations.
 
 (* d[xpath] = v on a path that spells an existing node (by key, index, negative index;
@@ -47,3 +47,13 @@ Theorem C02_nonvacuous :
                    spells root p (tokenize x) /\ resolve root p = Some (Leaf (SInt 7)).
 Proof. exact c01_example. Qed.
 Print Assumptions C02_nonvacuous.
+
+(* the number of steps has no limit: the theorems above quantify over every string.  A concrete instance with 70 tokens
+   (140 path steps, dictionary and list levels alternating): the assignment replaces exactly the addressed leaf *)
+Theorem C02_long_path_example :
+  length (tokenize (deep_x 70)) = 70 /\ length (deep_p 70) = 140 /\
+  resolve (deep 70) (deep_p 70) = Some (Leaf (SInt 1)) /\
+  setitem (wfuel (deep_x 70)) (deep 70) (deep_x 70) (Leaf (SInt 7)) = Ok (replace_at (deep 70) (deep_p 70) (Leaf (SInt 7))) /\
+  resolve (replace_at (deep 70) (deep_p 70) (Leaf (SInt 7))) (deep_p 70) = Some (Leaf (SInt 7)).
+Proof. exact long_path_example. Qed.
+Print Assumptions C02_long_path_example.
